@@ -139,6 +139,126 @@ def ground_check(st, pairs):
     return bad
 
 
+
+# ---- engine level: the answer substitution of =/2 as the caller sees it (through unify_call_return) ----------------
+E_TERMS = ["X", "Y", "Z", "W", "a", "b", "f(X)", "f(Y)", "f(a)", "f(f(Z))", "f(W)", "g(X,Y)", "g(X,X)", "g(Z,Z)", "g(X,f(Y))", "g(f(Y),Y)",
+           "g(Z,a)", "g(a,Z)", "g(W,W)", "g(f(X),f(W))", "h(X,f(Y),Y)", "h(Z,Z,a)", "h(X,Y,Z)", "h(f(Z),X,Y)", "h(W,f(W),Z)", "h(X,X,X)",
+           "[X|Y]", "[a,Z]", "[X,Y|Z]", "[W|W]"]
+
+
+def _tree(name, items):
+    lines = ["def %s(j):" % name]
+
+    def rec(lo, hi, ind):
+        if hi - lo == 1:
+            lines.append('%sreturn "%s"' % (ind, items[lo]))
+            return
+        mid = (lo + hi) // 2
+        lines.append("%sif j < %d:" % (ind, mid))
+        rec(lo, mid, ind + "    ")
+        rec(mid, hi, ind)
+    rec(0, len(items), "    ")
+    return "\n".join(lines) + "\n"
+
+
+E_PREAMBLE = """
+from problog.program import PrologString
+from problog.engine import DefaultEngine
+from problog.logic import Term, Var, Constant
+from problog.engine_unify import OccursCheck
+from vlib import unify_ref as U
+try:
+    from crosshair.tracers import NoTracing
+except ImportError:
+    import contextlib
+    NoTracing = contextlib.nullcontext
+
+""" + _tree("ET", E_TERMS) + """
+
+VMAP = {'X': -1, 'Y': -2, 'Z': -3, 'W': -4}
+
+
+def conv(t):
+    if isinstance(t, Var):
+        return VMAP[t.name]
+    return t.with_args(*[conv(a) for a in t.args])
+
+
+FRZ = \"\"\"
+frz(V,N,N1) :- var(V), V = v(N), N1 is N+1.
+frz(T,N,N1) :- nonvar(T), T =.. [_|As], frzl(As,N,N1).
+frzl([],N,N).
+frzl([A|As],N,N2) :- frz(A,N,N1), frzl(As,N1,N2).
+\"\"\"
+
+
+def freeze(ts):
+    \"\"\"reference: number the variables of the terms by first occurrence (depth first), as frz/3 does\"\"\"
+    names = {}
+
+    def walk(t):
+        if isinstance(t, int):
+            if t not in names:
+                names[t] = Term('v', Constant(len(names)))
+            return names[t]
+        return t.with_args(*[walk(a) for a in t.args])
+    return [walk(t) for t in ts]
+
+
+def answer_ok(t1s, t2s, form):
+    \"\"\"'' or what differs between the bindings the caller of =/2 sees and the most general unifier\"\"\"
+    with NoTracing():
+        tail = ", frz(q(X,Y,Z),0,_)." + FRZ
+        if form == 0:
+            text = "q(X,Y,Z) :- %s = %s" % (t1s, t2s) + tail
+        elif form == 1:
+            text = "q(X,Y,Z) :- e(%s, %s)" % (t1s, t2s) + tail + " e(A,A)."
+        elif form == 2:
+            text = "q(X,Y,Z) :- A = %s, B = %s, A = B" % (t1s, t2s) + tail
+        else:
+            # the answer of a non-ground top-level query, as engine.query returns it
+            text = "q(X,Y,Z) :- %s = %s." % (t1s, t2s)
+        db = DefaultEngine().prepare(PrologString(text))
+        try:
+            res = DefaultEngine().query(db, Term('q', None, None, None))
+        except OccursCheck:
+            res = None
+        t1, t2 = conv(Term.from_string(t1s)), conv(Term.from_string(t2s))
+        try:
+            sub = U.ref_unify(t1, t2, {})
+            ref = [U.resolve(v, sub) for v in (-1, -2, -3)]
+        except U.NoUnifier:
+            ref = None
+        if res is None:
+            return "" if ref is None else "OccursCheck raised although an mgu exists: " + text.split(chr(10))[0]
+        if ref is None:
+            return "" if len(res) == 0 else "answered %s although the terms do not unify: %s" % (res, text.split(chr(10))[0])
+        if len(res) != 1:
+            return "%d answers for %s" % (len(res), text.split(chr(10))[0])
+        if form == 3:
+            if not U.variant(Term('q', *res[0]), Term('q', *ref)):
+                return "top-level answer q%s is not the most general unifier q%s of %s" % (tuple(res[0]), tuple(ref), text)
+        elif Term('q', *res[0]) != Term('q', *freeze(ref)):
+            return "bindings q%s, most general unifier q%s (variables numbered by first occurrence): %s" % (
+                tuple(res[0]), tuple(freeze(ref)), text.split(chr(10))[0])
+    return ""
+"""
+
+
+def engine_harnesses(tier):
+    hs = []
+    n = len(E_TERMS)
+    for form in (0, 1, 2, 3):
+        for i, t1 in enumerate(E_TERMS):
+            if tier == "quick" and form != 0 and i % 4 != form:
+                continue
+            name = "h_eng_%d_%d" % (form, i)
+            src = ('def %s(j: int) -> str:\n    """\n    pre: 0 <= j < %d\n    post: _ == ""\n    """\n    return answer_ok("%s", ET(j), %d)\n'
+                   % (name, n, t1, form))
+            hs.append(xh.Harness(name, src, {"kind": "engine-answer", "t1": t1, "t2": "*", "domain": form}))
+    return hs
+
+
 def main(tier, seed):
     run = Run("C14", tier, seed, "other",
               "one CrossHair condition per (term-shape pair, entry point): the variable identities at the leaves are "
@@ -155,7 +275,10 @@ def main(tier, seed):
                        "reference: vlib/unify_ref.py (Robinson with occurs check); 'same symbol' is ProbLog's own "
                        "signature equality (a quoted atom 'a' and a are the same symbol)",
                        "CrossHair 'Not confirmed' / timeouts are inconclusive, never counted as held",
-                       "ground shape pairs carry no symbolic dimension and are evaluated concretely"]
+                       "ground shape pairs carry no symbolic dimension and are evaluated concretely",
+                       "engine level: for 30 term texts on each side (selector-chosen right-hand side, concrete per path, engine run untraced) "
+                       "the answer of q(X,Y,Z) :- T1 = T2 (also through a clause e(A,A) and through A = T1, B = T2, A = B) must be the most "
+                       "general unifier up to renaming: this is where unify_call_return carries the bindings of a call back to its caller"]
     st = Stats()
     res, cpu = xh.run(hs, PREAMBLE, per_condition_timeout=timeout)
     byname = dict((h.name, h) for h in hs)
@@ -185,6 +308,31 @@ def main(tier, seed):
                 st.ob("inconclusive", key=okey, note="counterexample did not replay: %s" % detail[:120])
         if len(st["samples"]) < 4 and verdict == "confirmed":
             st["samples"].append({"harness": h.source})
+    # engine level: answers of =/2 (three program forms) against the reference mgu
+    ehs = engine_harnesses(tier)
+    eres, ecpu = xh.run(ehs, E_PREAMBLE, per_condition_timeout=120 if tier == "quick" else 600, per_module=4)
+    eby = dict((h.name, h) for h in ehs)
+    for name, (verdict, detail) in sorted(eres.items()):
+        h = eby[name]
+        okey = "engine-answer:%s:form%d" % (h.meta["t1"], h.meta["domain"])
+        if verdict == "confirmed":
+            st.ob("proved", key=okey)
+        elif verdict == "inconclusive":
+            st.ob("inconclusive", key=okey, note="%s: %s" % (okey, detail[:80]))
+        else:
+            call = xh.parse_call(detail)
+            rep = None
+            if call:
+                kind, val = xh.call_harness(E_PREAMBLE, h, call[1], call[2])
+                rep = ("raised %s: %s" % (type(val).__name__, val)) if kind == "exc" else (val or None)
+            if rep:
+                st.ob("refuted", key=okey)
+                st.violation("engine-answer:%s" % rep.split(":")[0].split(" q(")[0][:50], rep,
+                             {"kind": "xh-engine", "harness": h.source, "name": h.name, "args": list(call[1]), "kwargs": call[2]})
+            else:
+                st.ob("inconclusive", key=okey, note="counterexample did not replay: %s" % detail[:120])
+    cpu += ecpu
+    hs = hs + ehs
     n_ground = len(ground_pairs)
     bad = ground_check(st, ground_pairs)
     st["solver_time"] += cpu
@@ -202,5 +350,5 @@ def replay(obj):
         st = Stats()
         return ground_check(st, [(obj["t1"], obj["t2"])]) > 0
     h = xh.Harness(obj["name"], obj["harness"])
-    kind, val = xh.call_harness(PREAMBLE, h, obj["args"], obj.get("kwargs") or {})
+    kind, val = xh.call_harness(E_PREAMBLE if obj.get("kind") == "xh-engine" else PREAMBLE, h, obj["args"], obj.get("kwargs") or {})
     return kind == "exc" or val != ""
